@@ -273,7 +273,7 @@ def checkCaseLib (c : Case) : CaseResult :=
 
 def checkCase (c : Case) : CaseResult :=
   -- kf-* cases of the other libraries carry a `lib` line and no Router history
-  if c.tag == "router-hist" || (c.tag.startsWith "kf-" && (c.get "lib").size == 0) then checkCaseRouter c
+  if c.tag == "router-hist" || c.tag == "router-hist-cp" || (c.tag.startsWith "kf-" && (c.get "lib").size == 0) then checkCaseRouter c
   else checkCaseLib c
 
 def run (_args : List String) : IO UInt32 := runCases checkCase
